@@ -1347,7 +1347,7 @@ def run(tier, seed, replay=None):
                 "dispatch mechanism for all registration sequences (C12_registry_is_a_function, C12_first_registrant_wins, C12_known_tag_dispatches, C12_unknown_tag_falls_back)",
                 "generated registry: own tags, effectiveness of every registration call, fallback, model = live dict (finite sweeps, bound = the tables)",
                 "generic attribute property laws incl. the exact exception set (C12_attr_*)",
-                "constructor arguments stored through generic properties are exposed after the whole constructor (C12_ctor_args_exposed, C12_ctor_flags_exposed); no argument dropped"],
+                "constructor arguments stored through generic properties are exposed after the whole constructor (C12_ctor_args_exposed, C12_ctor_flags_exposed); no argument dropped; guards equal the reference CtorGuardSpec.v (C12_ctor_guards_match_reference); no __init__ writes when wrapping (C12_wrapping_never_writes_static)"],
         not_proved=["well-formedness and infoset equality of the lxml serialisation, same class and equal property values after re-parsing: differential testing (python level) on every case",
                     "class identity through children / get_elements / get_element / xpath / parent / root / clone / typed finders: observed pairs compared in Coq with the model registry, for the generated trees (depth <= 3) and the sample documents only",
                     "arguments stored through hand-written properties, under conditions on other arguments, handed to a method (ViaHelper), stored component-wise (StoredIndexed) or used in other ways (Unrecognised): differential testing only (see ctor_table_kinds)"],
